@@ -10,7 +10,7 @@ MAP = [
     ('nested-logit generating function', 'C06'),
     ('scipy wrapper failed', 'C07'),
     ('bootstrap p-value', 'C08'), ('compile_estimation_results', 'C08'), ('single parameter failed', 'C08'), ('processed again after their Hessian', 'C08'),
-    ('count_number_of_groups', 'C09'), ('before the map of individuals was rebuilt', 'C09'), ('draws were generated for the old number of individuals', 'C09'),
+    ('count_number_of_groups', 'C09'), ('before the map of individuals was rebuilt', 'C09'), ('draws were generated for the old number of individuals', 'C09'), ('old rows with the new ranges', 'C09'),
     ('declared with two different types', 'C10'), ('stored identifiers (prepare_ids=False)', 'C10'), ('read the draws generated later', 'C10'),
     ('NORMAL_HALTON3', 'C11'),
     ('ComparisonOperator.audit', 'C12'), ('MultipleExpression.audit', 'C12'), ('Variable absent from the database', 'C12'),
@@ -24,7 +24,7 @@ MAP = [
     ('normalpdf and uniformpdf', 'C17'),
     ('MDCEV', 'C18'),
     ('sampled cross-nested logit', 'C19'), ('lists an alternative twice', 'C19'),
-    ('@deprecated called', 'C20'), ('central controller of a formula', 'C16'), ('controllers bearing the same name', 'C16'), ('descriptionOfNativeDraws', 'C20'), ('logcnl_avail', 'C20'),
+    ('@deprecated called', 'C20'), ('central controller of a formula', 'C16'), ('controllers bearing the same name', 'C16'), ('top node is a catalog', 'C16'), ('estimates were copied into the formulas only', 'C04'), ('descriptionOfNativeDraws', 'C20'), ('logcnl_avail', 'C20'),
 ]
 log = subprocess.run(['git', '-C', '/repo', 'log', '--format=%h %s', '7e16da8..HEAD'], capture_output=True, text=True).stdout.splitlines()
 fixed, unknown = [], []
